@@ -45,8 +45,10 @@ def _run_directed(P, case):
     except common.Infra:
         raise
     except BaseException as e:  # noqa: B902
+        # the scenarios are deterministic programs that run to their end on the unchanged tree (they are run on every
+        # check): one that is cut short by an exception of the library is a failed scenario, not an infrastructure problem
         import traceback
-        raise common.Infra("directed scenario crashed: %r\n%s" % (e, traceback.format_exc()[-1200:]))
+        return {"fails": ["the scenario did not run to its end: %r" % (e,)], "traceback": traceback.format_exc()[-1500:]}
 
 
 def evaluate(P, pid, tagged_cases, workers, acc):
